@@ -43,7 +43,10 @@ TEnq ==
                \/ (Ev.why = "timer_fire" /\ FireTimer(lastFire.id, lastFire.now, Ev.p) /\ lastFire' = [id |-> -1, now |-> 0])
                \/ (Ev.why = "timer_cancel" /\ Cls(Ev.ec) = 1 /\ CancelTimerHit(lastFire.id, Ev.p) /\ lastFire' = [id |-> -1, now |-> 0])
                \/ (Ev.why \in {"io_ready", "io_cancel", "io_error", "io_badfd", "io_select_failed"}
-                     /\ EnqIo(Ev.p, Ev.why, Cls(Ev.ec)) /\ UNCHANGED <<timers, lastFire>>)
+                     \* a refused registration / reactor error carries a SYSTEM error code whose number may coincide with the
+                     \* number of aio's "canceled" (EPERM = 1): such causes are always class 2
+                     /\ EnqIo(Ev.p, Ev.why, IF Ev.why \in {"io_error", "io_badfd", "io_select_failed"} THEN 2 ELSE Cls(Ev.ec))
+                     /\ UNCHANGED <<timers, lastFire>>)
             /\ UNCHANGED <<cancelCode, pidOf>>
     /\ UNCHANGED <<loopTid, stopped>>
 
@@ -78,7 +81,7 @@ TSetIo == /\ Is("SetIo")
 TDeq ==
     /\ Is("Deq")
     /\ IF Known(Ev.p) /\ hs[Ev.p].kind # "dtimer"
-       THEN Dequeue(Ev.p, Ev.tid) /\ Cls(Ev.ec) = hs[Ev.p].code /\ UNCHANGED <<timers, loopTid, stopped>>
+       THEN Dequeue(Ev.p, Ev.tid) /\ (Cls(Ev.ec) = hs[Ev.p].code \/ (hs[Ev.p].code = 2 /\ Ev.ec # 0)) /\ UNCHANGED <<timers, loopTid, stopped>>
        ELSE Ev.tid = loopTid /\ UNCHANGED lvars
     /\ UNCHANGED <<cancelCode, pidOf, lastFire>>
 
@@ -93,7 +96,7 @@ TRun ==
             /\ (Ev.cls = 0 => Ev.t >= Ev.dl)
             /\ Put(PidOfH(Ev.h), [hs[PidOfH(Ev.h)] EXCEPT !.st = "ran", !.code = Ev.cls])
        ELSE Run(PidOfH(Ev.h), Ev.h, Ev.cls, Ev.tid)
-    /\ Cls(Ev.ec) = Ev.cls
+    /\ (Cls(Ev.ec) = Ev.cls \/ (Ev.cls = 2 /\ Ev.ec # 0))     \* class 2: an error of another category whose number may equal "canceled"
     /\ UNCHANGED <<timers, loopTid, stopped, cancelCode, pidOf, lastFire>>
 
 TDCancel == Is("DCancel") /\ Ev.tid = loopTid /\ Skip
